@@ -28,6 +28,8 @@ ASSUMPTIONS = ["gate decision functions are pure functions of their arguments, s
 
 
 def gen_case(rng: random.Random, tier: str) -> dict:
+    if rng.random() < 0.03:
+        return gen_nested_branch(rng)
     feats = {"gates": True, "loops": rng.random() < 0.3, "nested": rng.random() < 0.4, "maps": False, "signals": False, "edge_defaults": False}
     g = gen.gen_program(rng, feats=feats, max_nodes=10 if tier == "thorough" else 8, p_gate=rng.choice([0.25, 0.35, 0.45]))
     # closed-by-default more often than the general generator, and some fallbacks
@@ -267,7 +269,64 @@ def branch_model(g: dict, provided: dict) -> dict | None:
     return {"values": vals, "ran": ran}
 
 
+def gen_nested_branch(rng: random.Random) -> dict:
+    return {"kind": "nested_branch", "pick": rng.choice(["nbA", "nbB", "@END"]), "rename": rng.choice(["a", "b", "both", "none"]), "depth": rng.choice([1, 1, 2]),
+            "closed": rng.random() < 0.5, "order_seed": rng.randrange(1 << 30), "async": [gen.gen_async_cfg(rng)]}
+
+
+def run_nested_branch(doc: dict) -> dict:
+    """A gate INSIDE a nested graph leaves one branch unselected; the wrapper renames the branch outputs. The outer graph sees only the
+    output of the branch that ran: the consumer of the other one never starts and its name is absent from the result."""
+    res = empty_result()
+    ra = "nboa_r" if doc["rename"] in ("a", "both") else "nboa"
+    rb = "nbob_r" if doc["rename"] in ("b", "both") else "nbob"
+    inner = {"name": "NB", "order": [0, 1, 2], "nodes": [
+        {"kind": "route", "name": "nbg", "params": [{"name": "nbx"}], "targets": ["nbA", "nbB", "@END"], "decide": {"op": "const", "value": doc["pick"]}, "default_open": not doc["closed"]},
+        {"kind": "fn", "name": "nbA", "params": [{"name": "nbx"}], "outs": ["nboa"]},
+        {"kind": "fn", "name": "nbB", "params": [{"name": "nbx"}], "outs": ["nbob"]}]}
+    ren = {k: v for k, v in (("nboa", ra), ("nbob", rb)) if k != v}
+    wrapper = {"kind": "graph", "name": "NB", "graph": inner, "renames": [{"outputs": ren}] if ren else []}
+    if doc["depth"] == 2:
+        wrapper = {"kind": "graph", "name": "NB2", "graph": {"name": "NB2", "nodes": [wrapper], "order": [0]}}
+    nodes = [wrapper, {"kind": "fn", "name": "nbCa", "params": [{"name": ra}], "outs": ["nbra"]}, {"kind": "fn", "name": "nbCb", "params": [{"name": rb}], "outs": ["nbrb"]}]
+    order = [0, 1, 2]
+    random.Random(doc["order_seed"]).shuffle(order)
+    spec = {"name": "top", "nodes": nodes, "order": order}
+    ran_branch = {"nbA": ("nbA", ra, "nbCa", "nbra"), "nbB": ("nbB", rb, "nbCb", "nbrb")}.get(doc["pick"])
+    expect_nodes = {"nbg"} | ({ran_branch[0], ran_branch[2]} if ran_branch else set())
+    expect_keys = {ran_branch[1], ran_branch[3]} if ran_branch else set()
+    viol: list = []
+    rts = []
+    try:
+        for i, (mode, cfg) in enumerate([("sync", None)] + [("async", c) for c in doc["async"]]):
+            w = run_world(copy.deepcopy(spec), {"nbx": 3}, mode=mode, cfg=cfg, run_kwargs={"error_handling": "continue"})
+            rts.append(w["rt"])
+            res["runs"] += 1
+            out = w["out"]
+            tag = f"{mode}{i}[nested_branch]"
+            ran = {h["n"] for h in enters(w["rt"])}
+            if out["status"] != "completed":
+                viol.append((f"{tag}:run_not_completed", {"status": out["status"], "error": out["error"]}))
+            elif ran != expect_nodes:
+                viol.append((f"{tag}:executed_branches_differ_from_model", {"ran": sorted(ran), "expected": sorted(expect_nodes), "decision": doc["pick"], "renames": ren}))
+            elif set(out["values"] or {}) != expect_keys:
+                viol.append((f"{tag}:outputs_of_an_unselected_branch_appear", {"keys": sorted(out["values"] or {}), "expected": sorted(expect_keys), "values": out["values"]}))
+    except BuildError:
+        res["discard"] = "build_error"
+        return res
+    res["violations"] = viol
+    res["nontrivial"] = True
+    res["stats"]["nested_branch_with_renamed_outputs_cases"] = 1
+    res["shape"] = digest(["nested_branch", doc["pick"], doc["rename"], doc["depth"], doc["closed"], order], 8)
+    res["sched"] = "-"
+    res["sig"] = res["shape"]
+    res["hdigest"] = hist_digest(rts)
+    return res
+
+
 def run_case(doc: dict) -> dict:
+    if doc.get("kind") == "nested_branch":
+        return run_nested_branch(doc)
     res = empty_result()
     g = doc["graph"]
     values = fill_values(doc["inputs"], keep=g.get("seeds", []))
@@ -334,6 +393,11 @@ def run_case(doc: dict) -> dict:
 
 
 def shrink_candidates(doc: dict):
+    if doc.get("kind") == "nested_branch":
+        for k, v in (("depth", 1), ("rename", "a"), ("order_seed", 0)):
+            if doc.get(k) != v:
+                yield dict(doc, **{k: v})
+        return
     from checks.c02 import shrink_program
 
     yield from shrink_program(doc)
@@ -359,6 +423,8 @@ def signature(doc: dict, cls: str, detail) -> str:
 
 
 def sample_repr(doc: dict, res: dict):
+    if doc.get("kind") == "nested_branch":
+        return {"template": "gate inside a nested graph, branch outputs renamed on the wrapper", **{k: doc[k] for k in ("pick", "rename", "depth", "closed")}}
     from checks.c02 import sample_repr as sr
 
     d = dict(doc, faults=[], error_handling="continue", sweep=False)
